@@ -33,6 +33,7 @@ def run_sequence(tuftool, replay, seed, length, log):
             except FileNotFoundError: return None
         for step in range(length):
             before = sha_of_file()
+            ino_before = os.stat(root).st_ino if os.path.exists(root) else None
             if not M.exists: cmd = 'init'
             else: cmd = rng.choice(['add-key'] * 3 + ['remove-key', 'set-threshold', 'set-threshold', 'set-version', 'bump-version', 'expire', 'sign', 'sign', 'sign', 'cross-sign'])
             args = None; changing = True; expect_fail = None; desc = cmd
@@ -67,6 +68,8 @@ def run_sequence(tuftool, replay, seed, length, log):
                 if after != before:
                     problems.append({'class': 'error-changed-file', 'what': f'step {step + 1} `{desc}` exited {p.returncode} ({p.stderr.strip()[-160:]}) but root.json changed'})
                 continue
+            if ino_before is not None and after != before and os.stat(root).st_ino == ino_before:
+                problems.append({'class': 'not-atomic-replace', 'what': f'`{desc}` rewrote root.json in place (same inode, new content): the file is not replaced atomically, an interruption leaves a truncated root.json'})
             st = check_file()
             if not st.get('parses'):
                 problems.append({'class': 'unparseable', 'what': f'after `{desc}` (exit 0) root.json does not parse: {st.get("error")}'}); break
